@@ -365,6 +365,9 @@ func mergeBlocks(closeCh <-chan struct{}, bw *blockWriter, br *blockReader, conf
 		tmpBlock2.reset()
 		tmpBlock2.append(tmpBlock, l)
 		bw.mustWriteBlock(tmpBlock.bm.seriesID, &tmpBlock2.block)
+		// The pending tail still references the decoder's buffer, which is
+		// recycled by the next block load; give it private copies first.
+		pendingBlock.ownValues()
 		releaseDecoder()
 	}
 	if err := br.error(); err != nil {
